@@ -10,6 +10,10 @@ CLAIMED = {
    text="Theorems (Props/C01.v): serialise(parse x) ++ remainder = x for certificate, signature (every type code), every fixed-size structure, strings; the composite parsers (keys-and-cert, leasesets, router info/address, mapping) are modelled in full and tied to the code by correspondence on every generated input, with the property oracle Bytes()++rem==input evaluated on the implementation for every accepted input.",
    design="8/C01", technique="Coq proof over executable model + differential correspondence + implementation-side round-trip oracle",
    note=NOTE_COMMON + "Composite-parser round-trip theorems are in progress; until then those parsers are decided by correspondence+oracle only (stated in the evidence). Known finding D2 (mapping slack) is reported as KNOWN-FINDING."),
+ "C02": dict(
+   text="Theorems (Props/C02.v): encoders written from the I2P common-structures specification text (Spec/Wire.v, independent of the model's own serialisers) are accepted by the model's parsers followed by arbitrary trailing bytes, consume exactly the encoding and expose exactly the encoded fields: certificate (every type and payload length), key certificate, the 384-byte identity block for all 30 supported (signing, encryption) type pairs (encryption key at the start, signing key at the end, padding between), signature (every type), offline signature, Lease, Lease2. The harness carries a second, independently written Go spec encoder and spec decoder: spec-encoded Destination/RouterIdentity/LeaseSet/LeaseSet2/Meta/Encrypted/RouterAddress/RouterInfo/Mapping values are parsed by the library and compared field by field, and values built with the library's constructors are serialised and decoded by the spec decoder.",
+   design="8/C02", technique="Coq proof that the model's parsers accept independent spec encoders + differential correspondence + spec encoder/decoder oracle on the implementation",
+   note=NOTE_COMMON + "The specification itself is transcribed by hand twice (Spec/Wire.v, harness/spec.go); composite structures (LeaseSet, LeaseSet2, RouterInfo) are covered at the correspondence/oracle level, the theorems cover the leaf and identity layouts."),
  "C03": dict(
    text="Theorems (Props/C03.v): append-invariance implies prefix-freeness for every parser (general lemma); append-invariance + prefix-freeness for fixed-size parsers and signatures (all type codes); certificate consumed extent and append behaviour. All 24 parsers are run on w, w++tail and every/many cut points of w with the property as oracle.",
    design="8/C03", technique="Coq proof (framing lemmas) over executable model + differential correspondence + framing oracle on the implementation",
